@@ -32,8 +32,13 @@ PARTIAL = ["Properties_C13b proves by computation over the regenerated Gen/Flow.
            "records (C13r_tail_after_free, non-vacuous: C13r_tail_example frees while another thread is still at its V); the sound read-mode pattern "
            "(decrement after runlock returned) is C13r_reader_variant; the in-lock read-mode decrement is refuted as a CLIENT error "
            "(C13r_reader_inlock_refuted: the object is freed while another reader still holds its own read lock -- the withdrawn design finding F5).  "
-           "Limits: condition-free MuModel (a thread that meets MU_CONDITION crashes in the model and keeps its reference; the refcount pattern around "
-           "nsync_mu_wait is decided by the arena oracle, refcount VRT_MUWAIT=1); the model's footprint is word + queue, reads included by pc",
+           "Limits: condition-free MuModel WITHOUT condition-variable traffic on the same mutex: the theorem rests on 'MU_WAITING set => the queue is non-empty' "
+           "(the early-release window of nsync_mu_unlock_slow_ is then pinned by a queued thread that owns a reference), which cv.c's wake_waiters violated -- F15 "
+           "(DESIGN 9.2), found by the statement audit of this very theorem, reproduced on the real library by the scripted scenario refcount_cv and repaired in /repo "
+           "0f631a1; after the repair wake_waiters clears the bit again when the queue is empty (C04_waiting_bit_has_a_waiter / MuXferModel), but a refcount theorem "
+           "over the combined mutex + cv model is not yet stated: that mix is decided by the arena oracle (refcount_cv, scripted and random schedules); likewise the "
+           "pattern around nsync_mu_wait (refcount VRT_MUWAIT=1; there the stale bits come with MU_CONDITION, which makes the release late).  A thread that meets "
+           "MU_CONDITION crashes in the model and keeps its reference; the model's footprint is word + queue, reads included by pc",
            "waker half (cv / note / counter vs nsync_wait_n and cancellable waits): arena + dead-stack oracles over sampled schedules"]
 TRUSTED_BASE = ["replay/waitn_replay.ml footprint comparison: attribution of traced events to model steps by the scenario's brackets and linearization events; stack regions carry no offsets",
                 "harness/rt/vrt.c arena (one mapping per allocation, PROT_NONE after free, never reused) and dead-stack check"]
@@ -49,12 +54,12 @@ def run(tier, seed):
                                                                    ("cancel_mix", {"VRT_KIND": 3, "VRT_OMIT": 0}, 50, 500)], tier, seed)
     for k in ("traces_validated_against_impl", "lockstep_model_steps"):
         tie[k] = tie.get(k, 0) + tie2.get(k, 0) + tie3.get(k, 0)
-    specs = [("refcount", {}, 3000, 60000), ("refcount", {"VRT_RMODE": 1}, 1000, 20000), ("refcount", {"VRT_MUWAIT": 1}, 3000, 60000), ("refcount", {"VRT_MUWAIT": 1, "VRT_PLAINPM": 30}, 1500, 30000),
+    specs = [("refcount_cv", {}, 400, 6000), ("refcount_cv", {"VRT_SCRIPT": 0}, 1500, 30000), ("refcount", {}, 3000, 60000), ("refcount", {"VRT_RMODE": 1}, 1000, 20000), ("refcount", {"VRT_MUWAIT": 1}, 3000, 60000), ("refcount", {"VRT_MUWAIT": 1, "VRT_PLAINPM": 30}, 1500, 30000),
              ("waitn_mix", {"VRT_PLAINPM": 40}, 2000, 60000), ("waitn_mix", {"VRT_AIM": 60}, 4000, 60000), ("waitn_mix", {"VRT_AIM": 60, "VRT_KIND": 1}, 4000, 60000),
              ("waitn_mix", {"VRT_AIM": 60, "VRT_KIND": 2}, 2000, 30000), ("cancel_mix", {"VRT_AIM": 60}, 1500, 30000), ("cv_mix", {"VRT_MODE": 3, "VRT_PLAINPM": 40}, 1000, 20000), ("waitn_mix", {}, 3000, 60000),
              ("cv_mix", {"VRT_MODE": 0}, 1000, 20000), ("note_mix", {"VRT_FAMILY": 1}, 800, 15000)]
     cov = scen_common.run_scenarios(res, specs, tier, seed, scen_common.MEMORY | scen_common.CRASHES)
-    cov["rule"] = ("refcount: 2..4 users of a malloc'ed {mutex, refs} run lock; last = --refs == 0; unlock; if last free (with extra lock/rlock "
+    cov["rule"] = ("refcount_cv: the write-mode pattern with a reader round that waits on a cv, a non-user in nsync_wait_n on that cv and a broadcast under a read lock (F15 shape; scripted chooser and random schedules); refcount: 2..4 users of a malloc'ed {mutex, refs} run lock; last = --refs == 0; unlock; if last free (with extra lock/rlock "
                    "traffic so queues form); waitn_mix / cv_mix / note_mix: wakers against nsync_wait_n and cancellable waits whose deadline "
                    "or other objects can end the wait at any moment, every object made ready again after the call returned; "
                    "non-trivial = runs with semaphore sleeps")
